@@ -84,5 +84,8 @@ ErrorIsAFault == outcome[1] = "err" => \E f \in Faults(prog) : Matches(f)       
 RejectBeforeEffects == outcome[1] = "err" => nexec = 0 /\ files = {}                                           \* C12
 EscapeTyped == outcome[1] = "err" => outcome[2] \in MPilotErrors                                               \* C13
 \* the builder and the declarative definition agree: exactly the injected fault
-BuilderSound == (tfault[1] = "none" => WellFormed(prog)) /\ (tfault[1] \notin {"none", "pair"} => ~WellFormed(prog))
+\* (an undeclared argument is no fault for a command that allows extra inputs)
+BuilderSound == /\ (tfault[1] = "none" => WellFormed(prog))
+                /\ (tfault[1] = "undeclared" /\ AllowExtra(D(tcmd)) => WellFormed(prog))
+                /\ (tfault[1] \notin {"none", "pair"} /\ ~(tfault[1] = "undeclared" /\ AllowExtra(D(tcmd))) => ~WellFormed(prog))
 =============================================================================
